@@ -68,6 +68,7 @@ def generate(st):
         'output_is_input': sw.choice([True, True, True, False]),
         'col': sw.choice(['data', 'data', 'data', 'out']),
         'on_as_list': sw.random() < 0.6,
+        'if_none_as_list': sw.random() < 0.4,
     }
     pool = KEYPOOL_I if cfg['keys_int'] else KEYPOOL_S
 
@@ -336,7 +337,8 @@ def execute(trace, ctx=None):
     if cfg.get('defaults') is not None:
         kwargs['defaults'] = dict(cfg['defaults'])
     if cfg.get('if_none'):
-        kwargs['if_none'] = True
+        # the documented forms: True, or the list of output columns concerned
+        kwargs['if_none'] = True if not cfg.get('if_none_as_list') else (['data', 'aux'] if cfg.get('dict_output') else [cfg.get('col', 'data')])
     if cfg.get('include_inputs'):
         kwargs['include_inputs'] = True
     if cfg.get('output_is_input', True) is False:
